@@ -16,7 +16,8 @@ func init() {
 		decided: "R1 every Content-Encoding the file server can emit for a precompressed sibling (and gzip itself) makes SkipCompressedFilter decline compression; " +
 			"R2 the gzip writer deletes Content-Length and sets Content-Encoding before it commits the header, the filter writer consults every filter and decides before either underlying WriteHeader, writes go to the gzip stream exactly on the compress path, and nothing in package gzip ever sets Content-Length; " +
 			"R3 gzip's setup always installs SkipCompressedFilter; " +
-			"R4 the file server offers a precompressed sibling only in a coding found in the client's Accept-Encoding during that same coding's iteration, labels it with that coding's name and opens that coding's extension.",
+			"R4 the file server offers a precompressed sibling only in a coding found in the client's Accept-Encoding during that same coding's iteration, labels it with that coding's name and opens that coding's extension; " +
+			"R5 the compressed stream is finished exactly once per response and the pooled compressor returned exactly once (no second release that would let two responses share one compressor).",
 		notDecided: "decoded-body equality; Accept-Encoding q-values (gzip;q=0 counts as acceptance by the substring test — noted); exact Content-Length values set by handlers.",
 	})
 }
@@ -29,6 +30,7 @@ func runC18(r *Report, p *Program) {
 	c18R2(h)
 	c18R3(h)
 	c18R4(h)
+	gzipStreamRule(h, "R5")
 }
 
 // firstFieldTable reads the first (string) field of each element of a package-level []struct literal.
